@@ -144,3 +144,27 @@ Proof.
     + unfold get_last. rewrite lookup_update_same. f_equal. lia.
   - unfold get_last. rewrite lookup_update_same. reflexivity.
 Qed.
+
+(* ---------- local.go: GetTimestamp under a clock that does not go backwards ---------- *)
+Lemma go_time_exact : forall m, 0 <= m < two45 -> go_time_to_ts m = m * two18.
+Proof.
+  intros m H. unfold go_time_to_ts. rewrite wrap_i64_id by (unfold two45, two18, two63 in *; lia).
+  apply wrap_u64_id. unfold two45, two18, two64 in *; lia.
+Qed.
+
+(* state (lastTimeStampTS, n) with lastTimeStampTS = GoTimeToTS(m): the previous call returned
+   lastTimeStampTS + n.  The next call at time now >= m returns something larger, provided fewer
+   than 2^18 calls fall into one millisecond. *)
+Lemma local_monotone : forall m n now,
+  0 <= m <= now -> now < two45 -> 0 <= n -> n + 1 < two18 ->
+  let res := local_get_ts (go_time_to_ts m, n) now in
+  go_time_to_ts m + n < snd res /\
+  fst (fst res) = go_time_to_ts now /\ snd res = fst (fst res) + snd (fst res) /\ 0 <= snd (fst res) <= n + 1.
+Proof.
+  intros m n now Hm Hnow Hn Hn1. cbv zeta. unfold local_get_ts.
+  rewrite (go_time_exact m) by lia. rewrite (go_time_exact now) by lia.
+  destruct (m * two18 =? now * two18) eqn:E; cbn [fst snd].
+  - assert (m = now) by (unfold two18 in *; lia). subst.
+    rewrite wrap_u64_id by (unfold two45, two18, two64 in *; lia). repeat split; lia.
+  - assert (m < now) by (unfold two18 in *; lia). unfold two18 in *. repeat split; lia.
+Qed.
